@@ -61,13 +61,17 @@ type SvcOpts struct {
 	Addr     string `json:"addr"`
 	Dialect  int    `json:"dialect,omitempty"`
 	// KeyMode: "" = the library's default key (the phone number); "tag" = a WithKeyFunc whose key differs from the
-	// phone number ("veh/" + the digits reversed)
+	// phone number ("veh/" + the digits reversed); "tag-nohb" = the same, but the function gives no key for
+	// heartbeats (ok=false): such a message is served, and the connection joins with its next handled message
 	KeyMode string `json:"key_mode,omitempty"`
+	// DefaultEvents: the library's own TerminalEventer instead of the recording one (RACE mode only: the run is
+	// judged by the race detector, not by the history)
+	DefaultEvents bool `json:"default_events,omitempty"`
 }
 
 // KeyOfDigits is the session key the configured key function gives a terminal with these phone digits.
 func (p *Plan) KeyOfDigits(d string) string {
-	if p.Svc.KeyMode == "tag" {
+	if p.Svc.KeyMode == "tag" || p.Svc.KeyMode == "tag-nohb" {
 		b := []byte(d)
 		for i, j := 0, len(b)-1; i < j; i, j = i+1, j-1 {
 			b[i], b[j] = b[j], b[i]
